@@ -12,10 +12,19 @@
        ever returned, "empty" is reported exactly when the list is empty;
      - C16_refused_exactly_when_full / C16_size_bounded: an offer is refused exactly when the
        queue holds its maximum, and the size never exceeds it.
-   The producers' interleaving inside a push (several goroutines between reserve and publish) is
-   covered by the statements about the parked window below and by the correspondence engine; the
-   theorem for concurrent producers (linearizability of the CAS loop) is not proved. *)
-From Otter Require Import Base Sketch Mpsc MpscFacts MpscFifo.
+   CONCURRENT producers (theories/MpscConc.v), at the granularity the code offers — a push is
+   "reserve" (everything up to and including the winning producer-index CAS; a growth step is part
+   of it) and, later, "publish" (the slot store); any number of producers may sit between the two
+   while others reserve, publish or grow the queue and the consumer pops:
+     - C16_concurrent_fifo: every interleaving of reservations, publications and pops is explained
+       by a FIFO of RESERVATIONS of capacity roundup32(maximum): elements are delivered exactly
+       once, in reservation order (hence in every producer's program order), the consumer waits
+       at a reserved, unpublished cell and never passes it, "empty" is reported only when nothing is
+       reserved, and an offer is refused exactly when the queue holds its maximum.
+   Not modelled: the individual loads inside "reserve" (the producers' retry loop on a failed CAS
+   and their spinning while another producer's growth step is in progress are atomic here; the
+   engine's parked-resize windows exercise them). *)
+From Otter Require Import Base Sketch Mpsc MpscFacts MpscFifo MpscConc.
 
 Theorem C16_seq_fifo : forall initial maximum ops,
   2 <= initial <= 2 ^ 31 -> 4 <= maximum <= 2 ^ 31 -> roundup32 initial <= roundup32 maximum ->
@@ -45,6 +54,37 @@ Proof.
   destruct (inv_reachable ops _ _ HI) as (segs' & HI'). exact (refused_iff_full _ _ v HI').
 Qed.
 Print Assumptions C16_refused_exactly_when_full.
+
+Theorem C16_concurrent_fifo : forall initial maximum ops,
+  2 <= initial <= 2 ^ 31 -> 4 <= maximum <= 2 ^ 31 -> roundup32 initial <= roundup32 maximum ->
+  explained (roundup32 maximum) (mpsc_new initial maximum, []) (0, []) ops.
+Proof. exact conc_fifo. Qed.
+Print Assumptions C16_concurrent_fifo.
+
+(* one step of the concurrent machine from any state related to the specification *)
+Theorem C16_concurrent_step : forall c a o,
+  CR c a ->
+  let '(c', out) := cstep c o in
+  exists a', astep (mpsc_capacity (fst c)) a o out = Some a' /\ CR c' a' /\
+             mpsc_capacity (fst c') = mpsc_capacity (fst c).
+Proof. exact sim_step. Qed.
+Print Assumptions C16_concurrent_step.
+
+(* non-vacuity: two producers reserve, the second publishes first, the consumer must wait for the
+   first; then both values come out in reservation order *)
+Example C16_concurrent_instance :
+  let c0 : cstate := (mpsc_new 4 8, []) in
+  let '(c1, o1) := cstep c0 (CReserve 10) in
+  let '(c2, o2) := cstep c1 (CReserve 20) in
+  let '(c3, o3) := cstep c2 (CPublish 1) in
+  let '(c4, o4) := cstep c3 CPop in
+  let '(c5, o5) := cstep c4 (CPublish 0) in
+  let '(c6, o6) := cstep c5 CPop in
+  let '(c7, o7) := cstep c6 CPop in
+  (o1, o2, o3, o4, o5, o6, o7) =
+  (OTicket 0 false, OTicket 1 false, OPublished true, OPopped PopWait, OPublished true,
+   OPopped (PopElem 10), OPopped (PopElem 20)).
+Proof. vm_compute. reflexivity. Qed.
 
 (* the rounding NewMPSC applies: the least power of two >= x *)
 Theorem C16_capacity_rounding : forall x, 1 < x <= 2 ^ 31 -> roundup32 x = 2 ^ Z.log2_up x.
